@@ -9,6 +9,7 @@
 //verif:include jws_env.go
 //verif:include jws_content.go
 //verif:harness H_C01_jws_verify
+//verif:harness H_C01_jws_verify_fold
 package jws
 
 import (
@@ -18,6 +19,13 @@ import (
 	"github.com/notaryproject/notation-core-go/signature/internal/base"
 )
 
+
+// the same with one member of the protected header whose key differs from a specified key only in letter case
+func H_C01_jws_verify_fold() {
+	foldModel = true
+	extrasMax = 1
+	H_C01_jws_verify()
+}
 
 func H_C01_jws_verify() {
 	env := buildEnvelopeJWS()
@@ -39,7 +47,6 @@ func H_C01_jws_verify() {
 		}
 		return
 	}
-	checkAcceptedJWS(env, c)
 	if len(chainRawJ) == 0 || chainParseErrJ[0] {
 		rt.Assert(false, "C01.jws.leaf.parsed")
 		return
@@ -70,7 +77,11 @@ func H_C01_jws_verify() {
 			rt.Assert((v.family == "PS") == (kind == rt.KindRSA) && (v.family == "ES") == (kind == rt.KindEC), "C01.jws.primitive.family")
 		}
 	}
+	// C02: the primitive that accepted the signature ran with the hash the table gives for the REPORTED algorithm, and
+	// that algorithm is the row of the leaf key
+	rt.Assert(rt.Implies(row == rt.AlgRow(rt.KeyInfo(leaf.PublicKey)), held), "C02.jws.verified.under.the.algorithm.of.the.leaf.key")
 	rt.Assert(held, "C01.jws.signed.by.leaf.key")
+	checkAcceptedJWS(env, c)
 	c2, err2 := e.Content()
 	rt.Assert(err2 == nil && c2 != nil, "C07.jws.content.after.verify")
 	if c2 != nil {
